@@ -37,7 +37,8 @@ class C03(SweepProp):
                     'require_probes': ['c03.delivered_checked',
                                        'c03.misaligned_world',
                                        'c03.scaling_twin',
-                                       'c03.second_construction'],
+                                       'c03.second_construction',
+                                       'c03.enthalpy_rise_checked'],
                     'min_evaluated': 80}
         return {'runs': 40000, 'wall_s': 1000, 'per_run_timeout': 600,
                 'shrink_s': 300,
